@@ -4,6 +4,7 @@ import (
 	"bytes"
 	"encoding/json"
 	"fmt"
+	"math"
 	"math/big"
 	"net/http/httptest"
 	"reflect"
@@ -235,9 +236,14 @@ type TReq struct {
 	Before    *CurArg `json:"before"`
 	AtOrAfter *int64  `json:"at_or_after_time"`
 	BeforeT   *int64  `json:"before_time"`
-	SelPI     bool    `json:"sel_page_info"`
-	SelTC     bool    `json:"sel_total_count"`
-	Vars      bool    `json:"vars"`
+	// Far-away bounds, outside the int64 nanosecond range (years 1678..2262), are spelled as RFC 3339
+	// text; AtOrAfter / BeforeT then hold their EFFECT on int64-timed edges: math.MinInt64 for an
+	// instant before every edge, math.MaxInt64 for one after every edge.
+	AtOrAfterText string `json:"at_or_after_text,omitempty"`
+	BeforeText    string `json:"before_text,omitempty"`
+	SelPI         bool   `json:"sel_page_info"`
+	SelTC         bool   `json:"sel_total_count"`
+	Vars          bool   `json:"vars"`
 }
 
 type servedEdge struct {
@@ -265,6 +271,34 @@ type servedObs struct {
 func gqlString(s string) string {
 	b, _ := json.Marshal(s)
 	return string(b)
+}
+
+// boundAtom is a time bound as the model's exact integer nanoseconds (also outside int64).
+func boundAtom(p *int64, text string) hx.Sexp {
+	if text != "" {
+		t, err := time.Parse(time.RFC3339Nano, text)
+		if err != nil {
+			panic(err)
+		}
+		return hx.A(nanosOf(t))
+	}
+	if p == nil {
+		return hx.A("none")
+	}
+	return hx.I(*p)
+}
+
+// farBound: the effect of a far-away bound on int64-timed edges.
+func farBound(text string) *int64 {
+	t, err := time.Parse(time.RFC3339Nano, text)
+	if err != nil {
+		panic(err)
+	}
+	v := int64(math.MaxInt64)
+	if t.Year() < 1678 {
+		v = math.MinInt64
+	}
+	return &v
 }
 
 func rfc3339(ns int64) string { return timeOf(ns).Format(time.RFC3339Nano) }
@@ -300,10 +334,14 @@ func (r TReq) build() (query string, vars map[string]any) {
 	if r.Before != nil {
 		add("before", "String", gqlString(r.Before.S), r.Before.S)
 	}
-	if r.AtOrAfter != nil {
+	if r.AtOrAfterText != "" {
+		add("atOrAfterTime", "DateTime", gqlString(r.AtOrAfterText), r.AtOrAfterText)
+	} else if r.AtOrAfter != nil {
 		add("atOrAfterTime", "DateTime", gqlString(rfc3339(*r.AtOrAfter)), rfc3339(*r.AtOrAfter))
 	}
-	if r.BeforeT != nil {
+	if r.BeforeText != "" {
+		add("beforeTime", "DateTime", gqlString(r.BeforeText), r.BeforeText)
+	} else if r.BeforeT != nil {
 		add("beforeTime", "DateTime", gqlString(rfc3339(*r.BeforeT)), rfc3339(*r.BeforeT))
 	}
 	q := "query"
